@@ -56,5 +56,6 @@ if __name__ == "__main__":
     opsmain.main(PROP, cases, "C15 qft / qft_swapped matrices and action",
                  "C15_dft", "qft and qft_swapped for every mask of registers of 0..4 (5) qubits via matrix(n), daggers, random "
                  "states on 5..6(7) qubits with scattered masks, qft*dgr(qft), structure on wide masks; basis states through the "
-                 "full-register transforms on 17-18 qubits (implementation only, DFT column formula)",
+                 "full-register transforms on 17-18 qubits (implementation only, DFT column formula); sparse probes of the transform over 2-3 "
+                 "of the highest qubits of 16-17 qubit registers, serial and threaded",
                  up_to_phase=True)
